@@ -5,7 +5,7 @@ import numpy as np
 from ..runner import Acc, HarnessError
 from ..refmodel import Fmt, MODES, ROUNDINGS, quantize, dy_float, is_exact_double
 from .. import alphabet as al
-from ..common import (Fxp, mk, codes, flags, carry, carrier_names, store, ROUTES, reset_class_state)
+from ..common import (Fxp, mk, codes, flags, carry, carrier_names, store, ROUTES, HROUTES, reset_class_state)
 
 ID = 'C01'
 RULE = ('cases = (format, rounding, overflow, input value, carrier, route) points of the finite products listed in '
@@ -229,7 +229,7 @@ def judge_scalar(acc, fmt, rounding, overflow, d, carrier, route, part):
         acc.violation('flags', case, 'fmt=%s mode=%s/%s v=%s/2^%d carrier=%s route=%s: flags %s expected %s'
                       % (fmt.dtype, rounding, overflow, d[0], d[1], carrier, route, fl, (eo, eu, ei)),
                       {'part': part, 'carrier': carrier, 'route': route})
-    if isinstance(v, np.ndarray) and v.ndim >= 1 and route != 'setitem':
+    if isinstance(v, np.ndarray) and v.ndim >= 1 and not route.startswith('setitem'):
         # the stored code is a function of the value at store time: a second object stored from the SAME array, then an element of the
         # first rewritten in place - neither the second object nor the caller's array may change
         try:
@@ -257,8 +257,8 @@ def dev_combos(dev):
     out = []
     for m in MODES:
         for c in cs:
-            for r in ROUTES:
-                n = (m != DEFAULT_MODE) + (c != 'float') + (r != 'ctor')
+            for r in ROUTES + HROUTES:
+                n = (m != DEFAULT_MODE) + (c != 'float') + (r != 'ctor') + (r in HROUTES)      # a destination with a history counts twice
                 if n <= dev:
                     out.append((m, c, r))
     return out
